@@ -9,6 +9,13 @@
     @ matrix <rows> <cols>                  leaf matrix with ids = flat offsets  → ok size=RxC
     @ cmatrix <rows> <cols>                 column-major source (MatrixRefTensor over a TensorAccess
                                             of a <cols>×<rows> tensor), ids = offsets  → ok size=RxC
+    @ tmatrix <n1>:<l1>,<n2>:<l2> order=<direct|swapped>
+                                            a matrix source made from a 2-dimensional tensor with the
+                                            given (arbitrary) dimension names: MatrixRefTensor over it,
+                                            Matrix::from(tensor), … (via=); `swapped`: through a
+                                            TensorAccess in the order n2,n1                → ok size=RxC
+    (all three leaves take fill=<id|zero|const|parity>: the element stored at offset k is k, 0, 7, k mod 2)
+    roundtrip [<n1> <n2>]                   … with TensorRefMatrix::with_names(current, [n1, n2])
     layout                                  data_layout()                       → row_major | column_major | other
     eq <same|cell:k|rows|cols> lhs=<self|rm|cm> rhs=<rm|cm>
                                             `==` between the view (or a copy of it in the given
@@ -54,6 +61,7 @@ structure State where
   parts : List MatrixPart := []       -- model
   specParts : List MatrixPart := []   -- specification
   live : Option (Live Nat) := none
+  fill : String := "id"
 
 def init : State := {}
 
@@ -61,6 +69,10 @@ def A : Arith := Arith.fixed
 
 def both (spec model : String) : String :=
   if spec = model then spec else s!"{spec} ## MODEL-SPEC-DISAGREE {model}"
+
+/-- the element a leaf stores at offset `k` -/
+def fillAt (fill : String) (k : Nat) : Nat :=
+  if fill = "zero" then 0 else if fill = "const" then 7 else if fill = "parity" then k % 2 else k
 
 def parseRange (s : String) : Option IndexRange :=
   match s.splitOn ":" with
@@ -73,13 +85,13 @@ def parseRange (s : String) : Option IndexRange :=
 def showIds (l : List Nat) : String := if l.isEmpty then "-" else ",".intercalate (l.map toString)
 
 /-- install a new composition: evaluate it with the model, answer with the spec's size -/
-def install (s : State) (e : MExpr) : State × String :=
+def install (s : State) (e : MExpr) (names : String × String := ("row", "column")) : State × String :=
   match e.eval A with
   | .panic k => (s, s!"panic({k})")
   | .ok (.error shape) =>
     -- the wrapper refused an empty view; the current view stays
     let specAns := if e.Buildable then "MODEL-SPEC-DISAGREE buildable" else
-      s!"err {showShape (shape.map fun (b, l) => (if b then "row" else "column", l))}"
+      s!"err {showShape (shape.map fun (b, l) => (if b then names.1 else names.2, l))}"
     (s, specAns)
   | .ok (.ok v) =>
     let specAns := s!"ok size={e.size.1}x{e.size.2}"
@@ -93,11 +105,11 @@ def scanSpec (e : MExpr) : List Nat :=
 def scanModel (v : MViewU) : List (Outcome (Option Nat)) :=
   (List.range v.view.rows).flatMap fun i => (List.range v.view.columns).map fun j => v.view.get i j
 
-def showScanModel (v : MViewU) : String :=
+def showScanModel (v : MViewU) (f : Nat → Nat) : String :=
   let cells := scanModel v
   if cells.all (fun | .ok (some _) => true | _ => false) then
     s!"{v.view.rows}x{v.view.columns}:" ++
-      showIds (cells.filterMap fun | .ok (some i) => some i | _ => none)
+      showIds (cells.filterMap fun | .ok (some i) => some (f i) | _ => none)
   else "MODEL-HOLE"
 
 def partScan (p : MatrixPart) : String := s!"{p.rows}x{p.columns}:{showIds p.cells}"
@@ -190,14 +202,23 @@ def step (s : State) (toks : List String) : State × String :=
       let l := flags.foldl (fun (l : Live Nat) f => Live.reverse l f.1 f.2) (Live.matrix m)
       ({ live := some l }, "ok " ++ liveSize l)
     | _, _, _ => ({}, "bad-op")
-  | "@" :: "matrix" :: rS :: cS :: _ =>
+  | "@" :: "matrix" :: rS :: cS :: rest =>
     match rS.toNat?, cS.toNat? with
-    | some r, some c => install {} (.leaf r c)
+    | some r, some c => install { fill := (optArg "fill" rest).getD "id" } (.leaf r c)
     | _, _ => ({}, "bad-op")
-  | "@" :: "cmatrix" :: rS :: cS :: _ =>
+  | "@" :: "cmatrix" :: rS :: cS :: rest =>
     match rS.toNat?, cS.toNat? with
-    | some r, some c => install {} (.leafCM r c)
+    | some r, some c => install { fill := (optArg "fill" rest).getD "id" } (.leafCM r c)
     | _, _ => ({}, "bad-op")
+  | "@" :: "tmatrix" :: shapeS :: rest =>
+    -- the names play no role: rows and columns are the first and the second length of the
+    -- tensor (in the order it is accessed)
+    match parseShape shapeS with
+    | some [(_, l1), (_, l2)] =>
+      let st : State := { fill := (optArg "fill" rest).getD "id" }
+      if (optArg "order" rest).getD "direct" = "swapped" then install st (.leafCM l2 l1)
+      else install st (.leaf l1 l2)
+    | _ => ({}, "bad-op")
   | "layout" :: _ =>
     match s.expr with
     | some e =>
@@ -209,7 +230,7 @@ def step (s : State) (toks : List String) : State × String :=
     match s.expr with
     | none => (s, "no-view")
     | some e =>
-      let cells := scanSpec e
+      let cells := (scanSpec e).map (fillAt s.fill)
       let (rows, cols) := e.size
       let lay : String → MLayout := fun t =>
         if t = "cm" then .columnMajor else if t = "rm" then .rowMajor else e.layout
@@ -256,27 +277,40 @@ def step (s : State) (toks : List String) : State × String :=
     match s.expr with
     | some e => install s (.map e)
     | none => (s, "no-view")
-  | "roundtrip" :: _ =>
-    match s.expr with
-    | some e => install s (.viaTensor e)
-    | none => (s, "no-view")
+  | "roundtrip" :: rest =>
+    match s.expr, s.view with
+    | some e, some v =>
+      match rest.filter (fun t => !(t.startsWith "via=")) with
+      | n1 :: n2 :: _ =>
+        if n1 = n2 then
+          -- equal names: `with_names` answers Err with the shape it was asked for
+          match tensorRefMatrixWithNames v.view n1 n2 with
+          | .ok (.error sh) =>
+            (s, both s!"err {showShape [(n1, e.size.1), (n2, e.size.2)]}" s!"err {showShape sh}")
+          | .ok (.ok _) => (s, "MODEL-SPEC-DISAGREE accepted equal names")
+          | .panic k => (s, s!"panic({k})")
+        else install s (.viaTensor e) (n1, n2)
+      | _ => install s (.viaTensor e)
+    | _, _ => (s, "no-view")
   | "mget" :: rS :: cS :: _ =>
     match s.expr, s.view, rS.toNat?, cS.toNat? with
     | some e, some v, some r, some c =>
-      (s, both (showOpt (e.cell r c)) (showOutcome showOpt (v.view.get r c)))
+      (s, both (showOpt ((e.cell r c).map (fillAt s.fill)))
+               (showOutcome (fun o => showOpt (o.map (fillAt s.fill))) (v.view.get r c)))
     | none, _, _, _ => (s, "no-view")
     | _, _, _, _ => (s, "bad-op")
   | "uget" :: rS :: cS :: _ =>
     match s.expr, s.view, rS.toNat?, cS.toNat? with
     | some e, some v, some r, some c =>
-      (s, both (match e.cell r c with | some i => toString i | none => "out-of-contract")
-               (showOutcome toString (v.uget r c)))
+      (s, both (match e.cell r c with | some i => toString (fillAt s.fill i) | none => "out-of-contract")
+               (showOutcome (fun i => toString (fillAt s.fill i)) (v.uget r c)))
     | none, _, _, _ => (s, "no-view")
     | _, _, _, _ => (s, "bad-op")
   | "scan" :: _ =>
     match s.expr, s.view with
     | some e, some v =>
-      (s, both s!"{e.size.1}x{e.size.2}:{showIds (scanSpec e)}" (showScanModel v))
+      (s, both s!"{e.size.1}x{e.size.2}:{showIds ((scanSpec e).map (fillAt s.fill))}"
+               (showScanModel v (fillAt s.fill)))
     | _, _ => (s, "no-view")
   | "set" :: rS :: cS :: _ =>
     -- a write through the view changes exactly the designated cell of the leaf
